@@ -264,3 +264,98 @@ func VerifH18c() {
 	}
 	nd.Reach("H18c.end")
 }
+
+// ---- exported observation helpers for harnesses in other packages (overlay only) ----
+
+// VerifDump returns the versions of key in tx in list order and whether the representation
+// invariants I1 (well-formed circular list, zero root value) and I2 (array mirror holds exactly
+// the list's nodes, empty for all-store files) hold.
+func VerifDump(tx *Transaction, key string) ([]model.File, bool) {
+	if tx == nil || tx.store == nil {
+		return nil, true
+	}
+	f := tx.store[key]
+	if f == nil {
+		return nil, true
+	}
+	var out []model.File
+	ok := true
+	if f.l.root.next != nil {
+		if f.l.root.v.Seq != 0 || f.l.root.v.Key != "" {
+			ok = false
+		}
+		cnt := 0
+		for n := f.l.root.next; n != &f.l.root; n = n.next {
+			if n == nil || cnt > 64 {
+				return out, false
+			}
+			if n.next == nil || n.next.prev != n {
+				return out, false
+			}
+			if !f.withoutSearch {
+				if cnt >= len(f.arr) || f.arr[cnt] != n {
+					ok = false
+				}
+			}
+			out = append(out, n.v)
+			cnt++
+		}
+	}
+	if f.withoutSearch {
+		if len(f.arr) != 0 {
+			ok = false
+		}
+	} else if len(f.arr) != len(out) {
+		ok = false
+	}
+	return out, ok
+}
+
+// VerifKeys lists the keys that have a per-key store in tx (possibly empty lists), in map order.
+func VerifKeys(tx *Transaction) []string {
+	var out []string
+	if tx == nil {
+		return nil
+	}
+	for k := range tx.store {
+		out = append(out, k)
+	}
+	return out
+}
+
+// VerifLinks checks I4 for key: every node of tx's list has a link that is a node of all's list
+// of the same key carrying an equal value; all-store nodes have no link.
+func VerifLinks(tx, all *Transaction, key string) bool {
+	if tx == nil || tx.store == nil || tx.store[key] == nil {
+		return true
+	}
+	f := tx.store[key]
+	if f.l.root.next == nil {
+		return true
+	}
+	var af *file
+	if all.store != nil {
+		af = all.store[key]
+	}
+	for n := f.l.root.next; n != &f.l.root; n = n.next {
+		if n == nil || n.link == nil || af == nil || af.l.root.next == nil {
+			return false
+		}
+		found := false
+		for a := af.l.root.next; a != &af.l.root; a = a.next {
+			if a == nil {
+				return false
+			}
+			if a == n.link {
+				found = true
+				if a.link != nil {
+					return false
+				}
+			}
+		}
+		if !found || n.link.v != n.v {
+			return false
+		}
+	}
+	return true
+}
